@@ -164,6 +164,8 @@ Record step_obs := {
   so_extra : list (obytes * bool * list cookie_facts);
                                   (* the replies after the first (bytes, authenticates, cookies) *)
   so_seen_before : list obytes;   (* cookies issued in this call that some client of this run had been given before *)
+  so_foreign : bool;              (* the reply comes from a server that is not this project's: the clauses about
+                                     the server's reply do not apply, those about the client do *)
   so_nosend : Z                   (* nothing was sent although the client holds key exchange data:
                                      1 the deadline of the call passed before the request left,
                                      2 the key exchange names a server that is not an IP address; 0 otherwise *)
@@ -222,7 +224,7 @@ Definition step_ok (s : ostate) (o : step_obs) : bool :=
         (if so_forwarded o && so_openable o then so_served o else true) &&
         (* ... and refuses a cookie sealed under a key that has expired *)
         (if so_forwarded o && negb (so_openable o) then negb (so_served o) else true) &&
-        (if so_served o
+        (if so_served o && negb (so_foreign o)
          then reply_ok (so_req o) (so_reply o) (so_reply_auth o) (so_reply_cookies o) (so_c2s o) (so_s2c o)
                 (c :: os_known s) (so_cur_key o)
          else true) &&
